@@ -51,22 +51,23 @@ CLAIMED = {
             "roots and redundancy block, Lagrange reconstruction from any qualifying set for the executable model of mpc_sss_key, Beaver, "
             "ECDH / MQV key equality, Pedersen) + correspondence of every cp_*/mpc_* entry point against executable textbook specifications "
             "with the key material the library prints, three RSA padding builds, six curves",
-            "Proved in Lean (28 property theorems over 7 lemma files, all unbounded): for every key n = p*q with e*d = 1 mod lcm(p-1, q-1), RSADP(RSAEP(m)) = m for every "
+            "Proved in Lean (29 property theorems over 8 lemma files, all unbounded): for every key n = p*q with e*d = 1 mod lcm(p-1, q-1), RSADP(RSAEP(m)) = m for every "
             "m < n (gcd(m, n) != 1 included) and the model of bn_mxp_crt equals c^d mod n; EME-PKCS1-v1_5, EME-OAEP (any hash with fixed output "
             "length) and the basic layout satisfy unpad(pad(m)) = m for every admissible m and accept only strings of the documented layout; "
-            "the integer-level scans modelling pad_basic / pad_pkcs1 equal the byte-level decoders for every k-octet block (pad_pkcs1: the "
-            "standard's separation without the |PS| >= 8 test); Paillier: (1+n)^m = 1+mn mod n^2, decryption of every well-formed ciphertext, "
+            "the integer-level models of pad_basic / pad_pkcs1 / pad_pkcs2 (RSA_DEC) equal the byte-level decoders of RFC 8017 for every k-octet "
+            "block (same decision, same message octets); Paillier: (1+n)^m = 1+mn mod n^2, decryption of every well-formed ciphertext, "
             "Dec(c1*c2) = m1+m2 mod n incl. wrap, and both the CRT (L_p, L_q, Garner) and the plain model of cp_phpe_dec return the plaintext; "
             "Benaloh round trip and homomorphism; Rabin roots/redundancy; the executable model of mpc_sss_key and the specification's "
             "interpolation return f(0) on the shares of any polynomial of degree below the number of shares over Z_q (any order, any "
             "qualifying subset), fewer shares leave every secret possible; Beaver reconstruction; ECDH/MQV symmetry, Pedersen homomorphism in "
-            "an abstract group. PARTIAL, carried as 12 known findings with reproducing lines (findings/C06-*.md): OAEP decryption drops the top "
-            "digit (1/256 of honest ciphertexts for 784-bit keys), PKCS#1 accepts short PS, size_t wrap for keys shorter than the padding, "
-            "Rabin hang on c = 0 and output written on rejection, Benaloh admits m = t, generalised Paillier wrong for s >= 3, ECIES fault on "
-            "short ciphertexts, ECDH/ECMQV strip leading zero octets of x, cp_rsa_gen success with e not invertible, pairing PSI singleton, "
-            "delegated-pairing verifiers return 1 for a dishonest helper. Tie: ~3400 lines per quick run: every plaintext length 0..max+2 per "
-            "key and padding, every octet of a ciphertext / tag mutated, crafted encoded messages for each rejection branch, capacities around "
-            "the required size, homomorphic pairs around the wrap, all share subsets for small (k, n), leading-zero shared secrets.",
+            "an abstract group. Eleven defects found by the check were repaired in /repo (fix commits listed in known_findings.json: OAEP top "
+            "digit, PKCS#1 short PS, size_t wrap for short keys, Rabin hang on c = 0 and output on rejection, Benaloh m = t, generalised "
+            "Paillier s >= 3, ECIES short ciphertext fault, cp_rsa_gen with e not invertible, bn_lag of the empty set, delegated-pairing "
+            "verifiers). PARTIAL: one known finding stays (C06-9: ECDH/ECMQV derive the key from the shortest-form x-coordinate, which differs "
+            "from the fixed-length conversion of SEC 1 in 1/256 of agreements). Tie: ~3400 lines per quick run: every plaintext length "
+            "0..max+2 per key and padding, every octet of a ciphertext / tag mutated, crafted encoded messages for each rejection branch, "
+            "capacities around the required size, homomorphic pairs around the wrap, all share subsets for small (k, n), leading-zero shared "
+            "secrets.",
             "Trusted: Lean kernel; Spec/Cp.lean as the reading of RFC 8017 / the scheme papers; Model/Cp.lean tied to the C functions by the model "
             "column only (exact ciphertext of cp_rsa_enc through the DRBG model of C15); whole-function equality with the C code, Benaloh / "
             "Damgard-Jurik / subgroup Paillier / ECIES / ECDH / ECMQV / Pedersen / triples / PSI and all rejection decisions are class C "
